@@ -9,6 +9,7 @@ literally - must accept the same token under the same keys and recover the same 
 from __future__ import annotations
 import copy
 import json
+import warnings
 
 from hypothesis import strategies as st
 
@@ -438,6 +439,23 @@ def apply_fault(token, token2, fault, raw_payload: bool):
     if k == "duplicate":
         sigs.append(copy.deepcopy(sigs[0]))
         return t
+    if k in ("dup-signature-other-protected", "dup-signature-no-protected"):
+        # one more entry that repeats the signature value of a genuine entry under another (or no) protected header
+        e = copy.deepcopy(sigs[0])
+        try:
+            hd = json.loads(rb.decode(e["protected"])) if "protected" in e else {}
+        except ValueError:
+            return None
+        if k == "dup-signature-no-protected":
+            if "protected" not in e:
+                return None
+            del e["protected"]
+            e["header"] = {**hd, **(e.get("header") or {}), "x-note": "forged"} if False else {**{a: b for a, b in hd.items() if a in ("alg", "kid")}, **(e.get("header") or {})}
+        else:
+            hd["cty"] = "forged-content-type"
+            e["protected"] = rb.encode(json.dumps(hd, separators=(",", ":")).encode())
+        sigs.append(e)
+        return t
     if k == "swap-sigs":
         if len(sigs) < 2:
             return None
@@ -452,7 +470,8 @@ def apply_fault(token, token2, fault, raw_payload: bool):
 
 
 STRUCTURAL = ["add-protected-e30", "add-protected-eyB9", "add-protected-IHt9", "sigs-empty", "sigs-missing", "to-general", "to-flattened", "unprotected-b64-false", "unprotected-b64-true",
-              "unprotected-extra", "drop-protected", "drop-header", "append-forged", "prepend-forged", "duplicate", "swap-sigs"]
+              "unprotected-extra", "drop-protected", "drop-header", "append-forged", "prepend-forged", "duplicate", "swap-sigs",
+              "dup-signature-other-protected", "dup-signature-no-protected"]
 NONE_KINDS = ["none-empty-sig", "none-keep-sig", "none-in-header-keep-rest"]
 
 
@@ -619,6 +638,20 @@ def run_fault(case, mplan, keymode, token, token2, fault, entry):
             return judge(entry, token, p2, keymode, payload, keyarg_override=ks)
         finally:
             ks.keys[j] = old
+    if fault["kind"] == "keysub-blanks":
+        # the verifier holds a secret that differs from the signer's by blanks / line breaks at its ends (handed over as raw octets):
+        # another key
+        from joserfc.jwk import OctKey
+        if len(mplan["members"]) != 1 or gk.key_from_record(mplan["members"][0]["key"])["kty"] != "oct":
+            return "n/a"
+        k = gk.key_from_record(mplan["members"][0]["key"])["k"]
+        raw = [b" " + k, k + b"\n", b"\r\n" + k + b" ", b"\t" + k][fault["variant"] % 4]
+        p2 = copy.deepcopy(mplan)
+        p2["members"][0]["key"] = gk.key_to_record({"kty": "oct", "k": raw})
+        with warnings.catch_warnings():
+            warnings.simplefilter("ignore")
+            ko = OctKey.import_key(raw if fault["variant"] % 2 else raw.decode("latin-1")) if all(b < 128 for b in raw) or fault["variant"] % 2 else OctKey.import_key(raw)
+        return judge(entry, token, p2, "key", payload, keyarg_override=ko)
     if fault["kind"] == "es-other-curve":
         # the verifier's EC key lives on another curve than the algorithm names; the token was signed with that key (ECDSA with the
         # algorithm's hash on the key's curve): not a signature of the named algorithm
@@ -781,7 +814,7 @@ def run_shard(ctx, spec):
                             ctx.finding(finding_key(mplan, fault, r2[0]), r2[1], {"case": case, "fault": fault, "entry": e, "token": token, "token2": token2})
         # key rotation inside a long-lived key set, PSS signatures with a foreign salt length
         for i in range(len(mplan["members"])):
-            more = [{"kind": "keysub-inplace", "i": i}] + ([{"kind": "pss-salt", "i": i, "salt": s_} for s_ in (0, 20, 33, 64)] if algs[i].startswith("PS") else []) + \
+            more = [{"kind": "keysub-inplace", "i": i}] + ([{"kind": "keysub-blanks", "i": i, "variant": v} for v in range(4)] if algs[i].startswith("HS") else []) + ([{"kind": "pss-salt", "i": i, "salt": s_} for s_ in (0, 20, 33, 64)] if algs[i].startswith("PS") else []) + \
                    ([{"kind": "es-other-curve", "i": i, "crv": c_} for c_ in ("P-256", "P-384", "P-521", "secp256k1")] if algs[i].startswith("ES") else [])
             for fault in more:
                 for e in ents:
